@@ -59,7 +59,8 @@ def main():
         for mid, m in cat.items():
             if names and mid not in names: continue
             p = m["property"]
-            items.append((mid, "cat", m, props or ([p] if p.startswith("C") else ["C11", "C17"])))
+            # C01 / C02 are two sides of one denotation: a change labelled with one may only be visible to the other
+            items.append((mid, "cat", m, props or (["C01", "C02"] if p in ("C01", "C02") else [p] if p.startswith("C") else ["C11", "C17"])))
         for d in sorted(glob.glob("/verif/mutants/extra/*.diff")):
             label = os.path.basename(d)[:-5]
             if names and label not in names: continue
@@ -84,7 +85,7 @@ def main():
             if s.count(payload["old"]) != 1: applied = False; err = f"old text occurs {s.count(payload['old'])} times"
             else: open(p, "w").write(s.replace(payload["old"], payload["new"]))
         if not applied:
-            rec = {"change": label, "applied": False, "error": err[:300]}
+            rec = {"change": label, "applied": False, "error": err[:300], "ts": round(time.time())}
             print(json.dumps(rec), flush=True); out.write(json.dumps(rec) + "\n"); out.flush()
             continue
         for prop in ps:
@@ -92,7 +93,7 @@ def main():
             r = sh([f"{verif}/check", prop, "--tier", tier], env=env, capture_output=True, text=True)
             lines = [l for l in r.stdout.splitlines() if l.startswith("VIOLATION")]
             rec = {"change": label, "check": prop, "tier": tier, "rc": r.returncode, "violations": len(lines), "secs": round(time.time() - t, 1),
-                   "first": [l[:260] for l in lines[:3]], "verif_commit": sh(["git", "-C", "/verif", "log", "--format=%h", "-1"], capture_output=True, text=True).stdout.strip()}
+                   "first": [l[:260] for l in lines[:3]], "ts": round(time.time()), "verif_commit": sh(["git", "-C", "/verif", "log", "--format=%h", "-1"], capture_output=True, text=True).stdout.strip()}
             if r.returncode == 2: rec["stderr"] = r.stderr[-600:]
             print(json.dumps(rec)[:500], flush=True); out.write(json.dumps(rec) + "\n"); out.flush()
         sh(["git", "-C", repo, "checkout", "--", "."]); sh(["git", "-C", repo, "clean", "-fdq"])
